@@ -65,6 +65,7 @@ def generate(rng, tier):
     for k in range(n):
         if k % 6 == 5:
             out.append({'kind': 'confluence', 'hseed': int(rng.integers(0, 2**31)), 'segments': int(rng.integers(1, 4)),
+                        'nfits': (int(rng.integers(33, 45)) if (tier == 'search' and k % 12 == 5) or k % 30 == 5 else int(rng.integers(2, 5))),
                         'n': int(rng.integers(10, 17)), 'm': int(rng.integers(12, 19))})
         else:
             out.append({'kind': 'history', 'hseed': int(rng.integers(0, 2**31)), 'length': int(rng.integers(5, 41)),
@@ -141,6 +142,9 @@ def _build_world(rng):
     w.add(seg, 'mask', frozen=True)
     for k in range(3): w.add(np.round(rng.uniform(-20, 400, (6, 7)) * 4) / 4, 'img', frozen=True)
     w.add(rng.integers(0, 300, (6, 7)).astype(np.int64), 'img', frozen=True)
+    for fr in (True, False):        # frames whose only negatives are round-off sized
+        t = np.round(rng.uniform(0, 300, (6, 7)) * 4) / 4; t[1, 2] = -1e-9; t[4, 0] = -3e-7
+        w.add(t, 'img_tinyneg', frozen=fr)
     w.add(np.round(rng.uniform(0, 50, (3, 6, 6)) * 4) / 4, 'cube', frozen=True)
     w.add(np.array([500., 600., 700.]), 'wave', frozen=True)
     w.add(np.array([0.5, 0.75, 0.25]), 'qe', frozen=True)
@@ -185,9 +189,9 @@ def _catalogue(w, rng, focus):
     import lentil
     D = lentil.detector
     ops = []
-    def op(fn, bind, call, inplace=(), rng_ok=False, pure=True, reskind=None, weight=1, returns_arg=False, flag=None):
+    def op(fn, bind, call, inplace=(), rng_ok=False, pure=True, reskind=None, weight=1, returns_arg=False, flag=None, expect=None):
         fn = fn if fn.startswith('caller.') else _resolve_label(fn, w.cells[bind['self']] if 'self' in bind else None)
-        ops.append(dict(fn=fn, flag=flag, bind=bind, call=call, inplace=set(inplace), rng_ok=rng_ok, pure=pure, reskind=reskind, weight=weight,
+        ops.append(dict(fn=fn, flag=flag, expect=expect, bind=bind, call=call, inplace=set(inplace), rng_ok=rng_ok, pure=pure, reskind=reskind, weight=weight,
                         returns_arg=returns_arg))
     C = w.cells
     a, o, m = w.pick(rng, 'amp'), w.pick(rng, 'opd'), w.pick(rng, 'mask')
@@ -244,7 +248,8 @@ def _catalogue(w, rng, focus):
         op('radiometry.planck_exitance', {}, lambda: R2.planck_exitance(np.array([500., 600., 700.]), 5000.0), reskind='res')
         sw2 = w.pick(rng, 'swave'); sv2 = [i for i, k in enumerate(w.kind) if k == 'svalue' and C[i].size == C[sw2].size][0]
         op('radiometry.Spectrum.__init__', {'wave': sw2, 'value': sv2}, lambda: R2.Spectrum(C[sw2], C[sv2], waveunit='nm'), reskind='spec', weight=3)
-        sp = w.pick(rng, 'spec'); sq = w.pick(rng, 'spec')
+        big = lambda x, i: np.size(x.wave) >= 4 and np.ptp(x.wave) > 0
+        sp = w.pick(rng, 'spec', big); sq = w.pick(rng, 'spec', big)
         if sp is not None:
             SP, SQ = C[sp], C[sq]
             op('radiometry.Spectrum.__sub__', {'self': sp, 'other': sq}, lambda: SP - SQ, reskind='spec')
@@ -253,7 +258,7 @@ def _catalogue(w, rng, focus):
             op('radiometry.Spectrum.asarray', {'self': sp}, lambda: SP.asarray(), reskind='res')
             if np.max(SP.value) > 0: op('radiometry.Spectrum.ends', {'self': sp}, lambda: SP.ends(), reskind='res')
             lo_, hi_ = float(np.min(SP.wave)), float(np.max(SP.wave))
-            op('radiometry.Spectrum.crop', {'self': sp}, lambda: SP.crop(lo_ + 0.1 * (hi_ - lo_), hi_ - 0.1 * (hi_ - lo_)), inplace=[sp], pure=False, returns_arg=True)
+            if np.size(SP.wave) >= 8: op('radiometry.Spectrum.crop', {'self': sp}, lambda: SP.crop(lo_ + 0.1 * (hi_ - lo_), hi_ - 0.1 * (hi_ - lo_)), inplace=[sp], pure=False, returns_arg=True)
             if np.max(SP.value) > 0: op('radiometry.Spectrum.trim', {'self': sp}, lambda: SP.trim(), inplace=[sp], pure=False, returns_arg=True)
             op('radiometry.Spectrum.resample', {'self': sp}, lambda: SP.resample(np.linspace(lo_, hi_, 6), waveunit=str(SP.waveunit)), inplace=[sp], pure=False, returns_arg=True)
     if focus == 'resample':
@@ -366,6 +371,10 @@ def _catalogue(w, rng, focus):
         if nn is not None:
             op('detector.shot_noise', {'img': nn}, lambda: D.shot_noise(C[nn], seed=sd), reskind='res', weight=2)
             op('detector.shot_noise', {'img': nn}, lambda: D.shot_noise(C[nn], method='gaussian', seed=sd), reskind='res')
+        tn = w.pick(rng, 'img_tinyneg')
+        mth = ['poisson', 'gaussian'][int(rng.integers(0, 2))]
+        op('detector.shot_noise', {'img': tn}, lambda: D.shot_noise(C[tn], method=mth, seed=sd), reskind='res', expect='Counts must be positive', weight=2)
+        op('detector.adc', {'img': tn}, lambda: D.adc(C[tn], 1.5, saturation_capacity=100), reskind='res')
         op('detector.read_noise', {'img': im}, lambda: D.read_noise(C[im], 10, seed=sd), reskind='res', weight=2)
         op('detector.dark_current', {}, lambda: D.dark_current(20.5, (4, 5), fpn_factor=0.2, seed=sd), reskind='res')
         op('detector.pixel', {'img': im}, lambda: D.pixel(C[im], oversample=2), reskind='res')
@@ -440,14 +449,16 @@ def _run_history(c):
             warnings.simplefilter('ignore')
             try: res = o['call']()
             except Exception as e: exc = f'{type(e).__name__}: {e}'[:160]
+        refused = None
+        if exc is not None and o.get('expect') and o['expect'] in exc: refused, exc = exc, None       # the documented refusal of a malformed argument
         st1 = np.random.get_state(); st1 = (st1[1].tobytes(), st1[2])
         after = w.snap()
         changed = [i for i, (x, y) in enumerate(zip(before, after)) if x != y]
         rescell = None
-        if exc is None and o['reskind'] in ('plane', 'wf', 'spec', 'tiltplane', 'field') and w.find(res) is None:
+        if exc is None and refused is None and o['reskind'] in ('plane', 'wf', 'spec', 'tiltplane', 'field') and w.find(res) is None:
             rescell = w.add(res, o['reskind'])
         argd = {s: before[i] for s, i in o['bind'].items()}
-        if exc is None and o['pure']: done.append((o, {s: _digest(w.cells[i]) for s, i in o['bind'].items()}, _digest(res)))
+        if exc is None and refused is None and o['pure']: done.append((o, {s: _digest(w.cells[i]) for s, i in o['bind'].items()}, _digest(res)))
         steps.append({'fn': o['fn'], 'inplace_flag': o['flag'], 'bind': [[s, i] for s, i in o['bind'].items()], 'res': rescell, 'changed': changed,
                       'allowed': sorted(o['inplace']), 'rng_changed': st0 != st1, 'rng_ok': o['rng_ok'], 'exc': exc,
                       'frozen': [bool(w.frozen[i]) for i in changed], 'kinds': [w.kind[i] for i in changed]})
@@ -469,11 +480,14 @@ def _confluence(c):
         segs = [base] if S == 1 else list(mask)
         for sm in segs: out += sm * scale * (rng.standard_normal((n, m)) * 0.05 + 0.02 * rng.uniform(-1, 1) * (xx - m // 2) + 0.02 * rng.uniform(-1, 1) * (yy - n // 2))
         return out
-    O1, Dl = surf(2e-7), surf(2e-7)
+    nf = c.get('nfits', 2)
+    O1 = surf(2e-7); Ds = [surf(2e-7 / (nf - 1)) for _ in range(nf - 1)]
+    Dl = sum(Ds)
     A = lentil.Pupil(amplitude=amp, opd=O1.copy(), mask=mask, pixelscale=PX, focal_length=10)
     A.fit_tilt(inplace=True)
-    A.opd = A.opd + Dl
-    A.fit_tilt(inplace=True)
+    for Dk in Ds:                       # closed-loop style: update the OPD, fit the tilt again (nf fits in all)
+        A.opd = A.opd + Dk
+        A.fit_tilt(inplace=True)
     B = lentil.Pupil(amplitude=amp, opd=O1 + Dl, mask=mask, pixelscale=PX, focal_length=10).fit_tilt()
     Cc = lentil.Pupil(amplitude=amp, opd=O1 + Dl, mask=mask, pixelscale=PX, focal_length=10)    # tilt left in the OPD
     def img(P):
